@@ -555,3 +555,45 @@ fn c05_face_modify_case_all_off() {
     let m = FaceModify { reset: false, fg: None, bg: None, underline: Some(UnderlineStyle::Straight), underline_color: None, bold: Some(false), italic: Some(false), blink: Some(false), strike: Some(false) };
     check_face_modify_case(m, 583008256u32, 1);
 }
+
+// ---- alt-screen keyboard-level bracketing: ORDER of the level command relative to the mode switch
+// Sink that records literal bytes and writes the marker 0xFE for every formatted write; TTYEncoder::kitty_level is replaced by
+// a stub that records (0xF0, level) when the terminal has the kitty keyboard - so the harness sees in which order the level is
+// set and the screen is switched, although core::fmt itself is outside CBMC's reach.
+struct OrderSink { bytes: [u8; 16], len: usize }
+impl OrderSink { fn push(&mut self, b: u8) { if self.len < 16 { self.bytes[self.len] = b; } self.len += 1; } }
+impl Write for OrderSink {
+    fn write(&mut self, buf: &[u8]) -> io::Result<usize> { let mut i = 0; while i < buf.len() { self.push(buf[i]); i += 1; } Ok(buf.len()) }
+    fn flush(&mut self) -> io::Result<()> { Ok(()) }
+    fn write_fmt(&mut self, _args: std::fmt::Arguments<'_>) -> io::Result<()> { self.push(0xFE); Ok(()) }
+}
+fn stub_kitty_level<W: Write>(enc: &TTYEncoder, mut out: W, level: usize) -> Result<(), Error> {
+    if enc.caps.kitty_keyboard { out.write_all(&[0xF0, level as u8])?; }
+    Ok(())
+}
+
+//# kind=complete tier=quick props=C05 fns=TTYEncoder::encode | DecModeSet on the alternate screen brackets the kitty keyboard level on the side of the ALTERNATE screen: entering = switch, then set the level; leaving = reset the level to 0, then switch (so the main screen's own level is never touched); every other mode emits the switch only; without the kitty keyboard no level command at all
+#[kani::proof]
+#[kani::unwind(4)]
+#[kani::stub(TTYEncoder::kitty_level, stub_kitty_level)]
+fn c05_altscreen_level_order() {
+    let caps = any_caps();
+    let kitty = caps.kitty_keyboard;
+    let mut enc = TTYEncoder::new(caps);
+    let mut out = OrderSink { bytes: [0; 16], len: 0 };
+    let enable: bool = kani::any();
+    let mode = any_mode();
+    let alt = matches!(mode, DecMode::AltScreen);
+    let r = enc.encode(&mut out, TerminalCommand::DecModeSet { enable, mode });
+    assert!(r.is_ok());
+    std::mem::forget(r);
+    std::mem::forget(enc);
+    if alt && kitty {
+        assert!(out.len == 3);
+        if enable { assert!(out.bytes[0] == 0xFE && out.bytes[1] == 0xF0 && out.bytes[2] == KEYBOARD_LEVEL as u8 && KEYBOARD_LEVEL > 0 && KEYBOARD_LEVEL < 256); }
+        else { assert!(out.bytes[0] == 0xF0 && out.bytes[1] == 0 && out.bytes[2] == 0xFE); }
+    } else {
+        assert!(out.len == 1 && out.bytes[0] == 0xFE);
+    }
+    kani::cover!(alt && kitty && !enable);
+}
